@@ -14,6 +14,7 @@
 package events
 
 import (
+	"context"
 	"encoding/binary"
 	"encoding/json"
 	"errors"
@@ -23,6 +24,7 @@ import (
 	"sort"
 	"strings"
 	"sync"
+	"sync/atomic"
 	"testing"
 	"time"
 
@@ -110,7 +112,11 @@ type step struct {
 }
 
 type meta struct {
-	Variant int   `json:"variant"` // bit 0: new state backend, bit 1: pruner initializer, bit 2: Finalise (sequencer) store path
+	// bit 0 (1): new state backend, bit 1 (2): pruner initializer, bit 2 (4): Finalise (sequencer) store path,
+	// bit 3 (8): poisoning store (every value lent to a Get callback is a copy that is scribbled over
+	// afterwards), bit 4 (16): pruned node (blocks below a floor > 0 pruned with pruner.PruneUpto, pruner
+	// initializer + seeded RetentionFloor; judged by the oracle only, query starts clamped to the floor)
+	Variant int   `json:"variant"`
 	Seed    int64 `json:"seed"`
 }
 
@@ -243,15 +249,134 @@ type replayer struct {
 	at      *atoms
 	g       *chainkit.Gen
 	node    *chainkit.Node
+	mem     *memory.Database // the database itself (node.Store may be a poisoning wrapper around it)
 	variant int
+	floor   uint64   // > 0: blocks below are pruned
 	oracle  []oBlock // modelled blocks only (base blocks are empty)
+
+	retained []retainedResult // nil = do not retain (diagnostic probes)
+	curStep  int
 }
 
-func (r *replayer) opts() []blockchain.Option {
-	if r.variant&2 != 0 {
-		return []blockchain.Option{blockchain.WithRunningEventFilterInitializer(pruner.InitializeRunningEventFilter)}
+// poisonStore lends every value to the Get callback as a private copy and scribbles over it when
+// the callback returns: a result that aliases the lent buffer (lazy decoding) is corrupted visibly.
+type poisonStore struct {
+	*memory.Database
+}
+
+func poisonGet(rd db.KeyValueReader, key []byte, cb func([]byte) error) error {
+	var cp []byte
+	err := rd.Get(key, func(v []byte) error {
+		cp = append(make([]byte, 0, len(v)), v...)
+		return cb(cp)
+	})
+	for i := range cp {
+		cp[i] = 0xA5
 	}
-	return nil
+	return err
+}
+
+type poisonBatch struct{ db.IndexedBatch }
+
+func (b poisonBatch) Get(key []byte, cb func([]byte) error) error {
+	return poisonGet(b.IndexedBatch, key, cb)
+}
+
+type poisonSnapshot struct{ db.Snapshot }
+
+func (s poisonSnapshot) Get(key []byte, cb func([]byte) error) error {
+	return poisonGet(s.Snapshot, key, cb)
+}
+
+func (p poisonStore) Get(key []byte, cb func([]byte) error) error {
+	return poisonGet(p.Database, key, cb)
+}
+func (p poisonStore) NewIndexedBatch() db.IndexedBatch { return poisonBatch{p.Database.NewIndexedBatch()} }
+func (p poisonStore) NewIndexedBatchWithSize(n int) db.IndexedBatch {
+	return poisonBatch{p.Database.NewIndexedBatchWithSize(n)}
+}
+func (p poisonStore) NewSnapshot() db.Snapshot { return poisonSnapshot{p.Database.NewSnapshot()} }
+func (p poisonStore) Update(fn func(db.IndexedBatch) error) error {
+	return p.Database.Update(func(b db.IndexedBatch) error { return fn(poisonBatch{b}) })
+}
+func (p poisonStore) WithListener(db.EventListener) db.KeyValueStore { return p }
+
+// newNode = a new process on the same database (graceful or not is the caller's business)
+func (r *replayer) newNode(mem *memory.Database) (*chainkit.Node, error) {
+	var store db.KeyValueStore = mem
+	if r.variant&8 != 0 {
+		store = poisonStore{mem}
+	}
+	var opts []blockchain.Option
+	if r.variant&(2|16) != 0 {
+		opts = append(opts, blockchain.WithRunningEventFilterInitializer(pruner.InitializeRunningEventFilter))
+	}
+	if r.variant&16 != 0 {
+		fl, err := pruner.NewRetentionFloor(store)
+		if err != nil {
+			return nil, err
+		}
+		opts = append(opts, blockchain.WithRetentionFloor(fl))
+	}
+	return chainkit.NewNode(store, r.variant&1 != 0, opts...), nil
+}
+
+// ---- retained results (aliasing): what Events handed back must keep its content
+type retainedResult struct {
+	step   int
+	events []blockchain.FilteredEvent
+	copyOf []string
+}
+
+func renderEvent(e *blockchain.FilteredEvent) string {
+	var b strings.Builder
+	fmt.Fprintf(&b, "%d/%d/%d bh=", e.BlockNumber, e.TransactionIndex, e.EventIndex)
+	if e.BlockHash != nil {
+		b.WriteString(e.BlockHash.String())
+	}
+	b.WriteString(" th=")
+	if e.TransactionHash != nil {
+		b.WriteString(e.TransactionHash.String())
+	}
+	if e.Event != nil {
+		b.WriteString(" from=")
+		if e.Event.From != nil {
+			b.WriteString(e.Event.From.String())
+		}
+		for i := range e.Event.Keys {
+			b.WriteString(" k=" + e.Event.Keys[i].String())
+		}
+		for i := range e.Event.Data {
+			b.WriteString(" d=" + e.Event.Data[i].String())
+		}
+	}
+	return b.String()
+}
+
+func (r *replayer) retain(step int, evs []blockchain.FilteredEvent) {
+	if len(evs) == 0 {
+		return
+	}
+	rr := retainedResult{step: step, events: evs}
+	for i := range evs {
+		rr.copyOf = append(rr.copyOf, renderEvent(&evs[i]))
+	}
+	r.retained = append(r.retained, rr)
+	if len(r.retained) > 8 {
+		r.retained = r.retained[len(r.retained)-8:]
+	}
+}
+
+// checkRetained returns "" or a description of a returned value whose content changed later.
+func (r *replayer) checkRetained() string {
+	for _, rr := range r.retained {
+		for i := range rr.events {
+			if now := renderEvent(&rr.events[i]); now != rr.copyOf[i] {
+				return fmt.Sprintf("event %d of the page returned at step %d was %q when returned and reads %q now", i, rr.step, rr.copyOf[i], now)
+			}
+		}
+	}
+	return ""
 }
 
 func (r *replayer) store(blk [][]mEvent) (stored bool, err error) {
@@ -318,16 +443,37 @@ func (r *replayer) oblock(n uint64) *oBlock {
 	return &r.oracle[i]
 }
 
+// concreteFilter also varies what the abstract filter leaves open: nil vs empty slices and
+// duplicated entries (derived from the filter itself, so a replay is identical).
 func (r *replayer) concreteFilter(f *mFilter) ([]felt.Address, [][]felt.Felt) {
-	var addrs []felt.Address
+	salt := len(f.Addrs) + 3*len(f.Keys)
+	for _, ks := range f.Keys {
+		salt = salt*5 + len(ks)
+	}
+	var addrs []felt.Address // nil when there is no address constraint ...
+	if len(f.Addrs) == 0 && salt%2 == 1 {
+		addrs = []felt.Address{} // ... or empty
+	}
 	for _, a := range f.Addrs {
 		addrs = append(addrs, felt.Address(*r.at.addr[a]))
 	}
-	keys := [][]felt.Felt{}
-	for _, ks := range f.Keys {
-		pos := []felt.Felt{}
+	if len(f.Addrs) > 0 && salt%3 == 0 {
+		addrs = append(addrs, addrs[0]) // duplicate entry
+	}
+	var keys [][]felt.Felt
+	if len(f.Keys) == 0 && salt%2 == 0 {
+		keys = [][]felt.Felt{}
+	}
+	for pi, ks := range f.Keys {
+		var pos []felt.Felt
+		if len(ks) == 0 && (salt+pi)%2 == 0 {
+			pos = []felt.Felt{}
+		}
 		for _, k := range ks {
 			pos = append(pos, *r.at.key[k])
+		}
+		if len(ks) > 0 && (salt+pi)%3 == 1 {
+			pos = append(pos, pos[len(pos)-1])
 		}
 		keys = append(keys, pos)
 	}
@@ -343,6 +489,10 @@ func (r *replayer) query(a *mAct) (res qResult) {
 		}
 	}()
 	addrs, keys := r.concreteFilter(a.F)
+	from, to := uint64(a.From), uint64(a.To) // To = -1 is blockchain.PreConfirmedFilterSentinel
+	if from < r.floor {
+		from = r.floor
+	}
 	var tok *blockchain.ContinuationToken
 	maxPages := 40 + 6*len(r.oracle)*4
 	for page := 0; ; page++ {
@@ -356,11 +506,11 @@ func (r *replayer) query(a *mAct) (res qResult) {
 			res.err = "EventFilter: " + err.Error()
 			return res
 		}
-		if err := flt.SetRangeEndBlockByNumber(blockchain.EventFilterFrom, uint64(a.From)); err != nil {
+		if err := flt.SetRangeEndBlockByNumber(blockchain.EventFilterFrom, from); err != nil {
 			res.err = err.Error()
 			return res
 		}
-		if err := flt.SetRangeEndBlockByNumber(blockchain.EventFilterTo, uint64(a.To)); err != nil {
+		if err := flt.SetRangeEndBlockByNumber(blockchain.EventFilterTo, to); err != nil {
 			res.err = err.Error()
 			return res
 		}
@@ -373,6 +523,9 @@ func (r *replayer) query(a *mAct) (res qResult) {
 		if err != nil {
 			res.err = "Events: " + err.Error()
 			return res
+		}
+		if r.retained != nil {
+			r.retain(r.curStep, evs)
 		}
 		pg := []realRef{}
 		for _, e := range evs {
@@ -433,7 +586,7 @@ func (r *replayer) naive(a *mAct) []realRef {
 	}
 	for i := range r.oracle {
 		ob := &r.oracle[i]
-		if int64(ob.number) < a.From || int64(ob.number) > a.To {
+		if int64(ob.number) < a.From || (a.To >= 0 && int64(ob.number) > a.To) || ob.number < r.floor {
 			continue
 		}
 		for _, oe := range ob.events {
@@ -752,15 +905,16 @@ func (r *replayer) diagnose(a *mAct, got, want []realRef) string {
 	if k := classify(got, want); k != "false-negative" && k != "wrong-events" {
 		return ""
 	}
-	mem, ok := r.node.Store.(*memory.Database)
-	if !ok {
-		return ""
-	}
-	exactOn := func(store db.KeyValueStore) bool {
-		saved := r.node
-		r.node = chainkit.NewNode(store, saved.NewState, r.opts()...)
+	mem := r.mem
+	exactOn := func(store *memory.Database) bool {
+		saved, savedRet := r.node, r.retained
+		n, err := r.newNode(store)
+		if err != nil {
+			return false
+		}
+		r.node, r.retained = n, nil
 		q := r.query(a)
-		r.node = saved
+		r.node, r.retained = saved, savedRet
 		return q.err == "" && q.bad == "" && eqRefs(concat(q.pages), want)
 	}
 	if exactOn(mem.Copy()) {
@@ -794,24 +948,72 @@ func (r *replayer) diagnose(a *mAct, got, want []realRef) string {
 	return ""
 }
 
-func replayOne(in *input, idx int, beh []step, m meta) (oc outcome) {
+// progress is what the watchdog can still report when the real code hangs
+type progress struct {
+	mu   sync.Mutex
+	oc   *outcome
+	step atomic.Int64
+	act  atomic.Value
+}
+
+var prunedFloors = map[uint64][]uint64{8188: {8186, 5000, 8188}, 16380: {12000, 16378, 8192}}
+
+func replayOne(in *input, idx int, beh []step, m meta, prog *progress) (oc outcome) {
 	oc = outcome{index: idx, actions: map[string]int{}, conform: true, windowsHit: map[string]int{}}
+	prog.mu.Lock()
+	prog.oc = &oc
+	prog.mu.Unlock()
 	im, err := baseImage(in.Base, m.Variant&1 != 0)
 	if err != nil {
-		oc.machinery = err.Error()
+		// the real code refused a valid empty block: reported once by the test itself
+		oc.machinery = "base image: " + err.Error()
 		return oc
 	}
 	at := newAtoms(m.Seed)
-	r := &replayer{in: in, at: at, g: chainkit.NewGen(m.Seed), variant: m.Variant}
-	r.node = chainkit.NewNode(im.store.Copy(), m.Variant&1 != 0, r.opts()...)
+	r := &replayer{in: in, at: at, g: chainkit.NewGen(m.Seed), variant: m.Variant, retained: []retainedResult{}}
+	r.mem = im.store.Copy()
+	mkInput0 := func(si int) any {
+		return vh.J{"w": in.W, "base": in.Base, "behaviours": [][]step{beh[:si+1]}, "meta": []meta{m}, "mode": in.Mode}
+	}
+	if m.Variant&16 != 0 {
+		fls := prunedFloors[in.Base]
+		if len(fls) == 0 {
+			fls = []uint64{in.Base - 2}
+		}
+		r.floor = fls[int(m.Seed%int64(len(fls)))]
+		if _, _, err := pruner.PruneUpto(context.Background(), r.mem, r.floor, 1<<30); err != nil {
+			oc.divergences = append(oc.divergences, vh.Divergence{Key: "event-index:pruned-node:prune-failed",
+				What: fmt.Sprintf("pruner.PruneUpto(%d) on the base image: %v", r.floor, err), Input: mkInput0(0), Step: 0})
+			return oc
+		}
+	}
+	r.node, err = r.newNode(r.mem)
+	if err != nil {
+		oc.divergences = append(oc.divergences, vh.Divergence{Key: "event-index:pruned-node:retention-floor-failed",
+			What: err.Error(), Input: mkInput0(0), Step: 0})
+		return oc
+	}
 	proj := &projector{at: at, cache: map[string]decoded{}}
+
+	// a panic of the real code is a divergence of the step it happened in
+	defer func() {
+		if p := recover(); p != nil {
+			si := int(prog.step.Load())
+			act, _ := prog.act.Load().(string)
+			prog.mu.Lock()
+			oc.conform = false
+			oc.divergences = append(oc.divergences, vh.Divergence{Key: "event-index:panic:" + act,
+				What: fmt.Sprintf("%s panics: %v", act, p), Input: mkInput0(si), Step: si})
+			prog.mu.Unlock()
+		}
+	}()
 
 	// "oracle" mode judges the property only: every answer against the receipts the harness stored,
 	// Store/RevertHead not refused. It is used for the directed scenarios (which carry no model
 	// expectations), for replays of behaviours that exhibited a known defect (they must pass once
 	// the defect is repaired), and for the rest of a behaviour after the model predicted a defect
 	// that the code does not have.
-	oracleOnly := in.Mode == "oracle"
+	oracleOnly := in.Mode == "oracle" || m.Variant&16 != 0
 	mkInput := func(si int, mode string) any {
 		j := vh.J{"w": in.W, "base": in.Base, "behaviours": [][]step{beh[:si+1]}, "meta": []meta{m}}
 		if mode != "" {
@@ -827,7 +1029,9 @@ func replayOne(in *input, idx int, beh []step, m meta) (oc outcome) {
 		if oracleOnly || isDefectKey(key) {
 			mode = "oracle"
 		}
+		prog.mu.Lock()
 		oc.divergences = append(oc.divergences, vh.Divergence{Key: key, What: what, Input: mkInput(si, mode), Step: si, Expected: exp, Observed: obs})
+		prog.mu.Unlock()
 	}
 	notInCode := func(si int, what string) {
 		oc.notes = append(oc.notes, fmt.Sprintf("behaviour %d step %d: %s", idx, si, what))
@@ -838,6 +1042,9 @@ func replayOne(in *input, idx int, beh []step, m meta) (oc outcome) {
 		s := &beh[si]
 		oc.steps++
 		oc.actions[s.A.Name]++
+		prog.step.Store(int64(si))
+		prog.act.Store(s.A.Name)
+		r.curStep = si
 		stop := false
 		hasModel := s.Res.Kind != ""
 		switch s.A.Name {
@@ -889,7 +1096,13 @@ func replayOne(in *input, idx int, beh []step, m meta) (oc outcome) {
 					stop = true
 				}
 			}
-			r.node = r.node.Restart()
+			if n, err := r.newNode(r.mem); err != nil {
+				oc.conform = false
+				diverge(si, "event-index:pruned-node:retention-floor-failed", err.Error(), nil, nil)
+				stop = true
+			} else {
+				r.node = n
+			}
 		case "Query":
 			q := r.query(&s.A)
 			want := r.naive(&s.A)
@@ -966,10 +1179,15 @@ func replayOne(in *input, idx int, beh []step, m meta) (oc outcome) {
 		if stop {
 			return oc
 		}
+		if what := r.checkRetained(); what != "" {
+			oc.conform = false
+			diverge(si, "event-query:retained-result-mutated:after-"+s.A.Name, "a value handed back by EventFilter.Events changed after a later "+s.A.Name+": "+what, nil, nil)
+			return oc
+		}
 		if oracleOnly || !hasModel {
 			continue
 		}
-		rs, err := proj.project(r.node.Store, in.W)
+		rs, err := proj.project(r.mem, in.W)
 		if err != nil {
 			oc.conform = false
 			diverge(si, "event-index:conformance:unreadable", err.Error(), nil, nil)
@@ -989,6 +1207,43 @@ func filterString(f *mFilter) string {
 	return string(b)
 }
 
+// safeBaseImage turns a panic of the real code while building the image into an error
+func safeBaseImage(base uint64, newState bool) (im *image, err error) {
+	defer func() {
+		if p := recover(); p != nil {
+			err = fmt.Errorf("panic: %v", p)
+		}
+	}()
+	return baseImage(base, newState)
+}
+
+// replayGuarded runs one behaviour under a watchdog: a hang of the real code becomes a divergence
+// and whatever the behaviour had already recorded is kept.
+func replayGuarded(in *input, idx int, beh []step, m meta) outcome {
+	prog := &progress{}
+	prog.act.Store("start")
+	done := make(chan outcome, 1)
+	go func() { done <- replayOne(in, idx, beh, m, prog) }()
+	limit := 240 * time.Second
+	select {
+	case oc := <-done:
+		return oc
+	case <-time.After(limit):
+		prog.mu.Lock()
+		defer prog.mu.Unlock()
+		oc := outcome{index: idx, actions: map[string]int{}, windowsHit: map[string]int{}}
+		if prog.oc != nil {
+			oc.divergences = append(oc.divergences, prog.oc.divergences...)
+		}
+		si := int(prog.step.Load())
+		act, _ := prog.act.Load().(string)
+		oc.divergences = append(oc.divergences, vh.Divergence{Key: "event-index:hang:" + act,
+			What:  fmt.Sprintf("%s (step %d) did not return within %s", act, si, limit),
+			Input: vh.J{"w": in.W, "base": in.Base, "behaviours": [][]step{beh[:min(si+1, len(beh))]}, "meta": []meta{m}, "mode": in.Mode}, Step: si})
+		return oc
+	}
+}
+
 // ------------------------------------------------------------------ the test
 
 func TestEventsReplay(t *testing.T) {
@@ -1006,9 +1261,9 @@ func TestEventsReplay(t *testing.T) {
 	}
 	variants := in.Variants
 	if len(variants) == 0 {
-		variants = []int{0, 3, 5, 6}
+		variants = []int{0, 3, 5, 6, 8, 15}
 		if vh.Thorough() {
-			variants = []int{0, 1, 2, 3, 4, 5, 6, 7}
+			variants = []int{0, 1, 2, 3, 4, 5, 6, 7, 8, 9, 10, 11, 12, 13, 14, 15}
 		}
 	}
 	metas := in.Meta
@@ -1025,9 +1280,13 @@ func TestEventsReplay(t *testing.T) {
 		need[m.Variant&1 != 0] = true
 	}
 	for ns := range need {
-		im, err := baseImage(in.Base, ns)
+		im, err := safeBaseImage(in.Base, ns)
 		if err != nil {
-			t.Fatalf("base image: %v", err)
+			// the real code refused (or panicked on) one of the valid empty blocks of the base image
+			out.Diverge(vh.Divergence{Key: "event-index:base-image:store-refused",
+				What:  fmt.Sprintf("building the base image of %d empty blocks through Blockchain.Store (new state backend: %v): %v", in.Base, ns, err),
+				Input: vh.J{"w": in.W, "base": in.Base, "behaviours": [][]step{}, "meta": []meta{}, "variants": []int{map[bool]int{false: 0, true: 1}[ns]}, "probe_base_image": true}})
+			return
 		}
 		out.Stats[fmt.Sprintf("base_image_%d_newstate_%v_ms", in.Base, ns)] = int(im.took.Milliseconds())
 	}
@@ -1044,7 +1303,7 @@ func TestEventsReplay(t *testing.T) {
 		go func() {
 			defer wg.Done()
 			for i := range ch {
-				results[i] = replayOne(&in, i, in.Behaviours[i], metas[i])
+				results[i] = replayGuarded(&in, i, in.Behaviours[i], metas[i])
 			}
 		}()
 	}
@@ -1059,13 +1318,20 @@ func TestEventsReplay(t *testing.T) {
 	perBehaviour := []vh.J{}
 	nonConform, withDefect := 0, 0
 	notes := []string{}
+	// divergences first: a machinery failure must never mask a recorded violation
+	machinery := ""
 	for _, oc := range results {
-		if oc.machinery != "" {
-			t.Fatalf("machinery failure in behaviour %d: %s", oc.index, oc.machinery)
-		}
 		for _, d := range oc.divergences {
 			out.Diverge(d)
 		}
+		if oc.machinery != "" && machinery == "" {
+			machinery = fmt.Sprintf("machinery failure in behaviour %d: %s", oc.index, oc.machinery)
+		}
+	}
+	if machinery != "" && len(out.Divergences) == 0 {
+		t.Fatal(machinery)
+	}
+	for _, oc := range results {
 		for k, v := range oc.actions {
 			actions[k] += v
 		}
